@@ -135,6 +135,36 @@ CLAIMS = {
         "flip); each schedule is replayed through the extracted model: every CAS outcome, extracted message and peeked time must agree (thousands of CAS retries and ties).",
    note=TB + "SC atomics; hook-granularity atomicity; minimality under a comparator that changes while elements are queued is replayed, not proved.",
    tech="Coq proof (multiset preservation for arbitrary comparators, queue accounting invariant, heap invariants) + exact schedule replay through the extracted model"),
+ "C02": dict(cat="proof", ref="DESIGN.md §5 C02",
+   text="Theorems (Properties_C02.v, axiom-free): the capstone of C01 is rank-free — the abstract machine's pool holds every existing message wherever it is (buffer, queue, MPI flight) and "
+        "its steps may be scheduled in any order, so delivery delay, inter-sender reordering and anti-messages overtaking their message are schedules of it; remote (id word, sequence word) keys "
+        "are injective, so an anti-message matches only its own message. Tie: real multi-process runs (mpiexec, 2..3 ranks x 1..16 threads, GVT periods down to 0) of generated programs: "
+        "per-LP final digests against the extracted reference executor, one finalisation per LP.",
+   note=TB + "MPI modelled, not verified (exactly-once delivery, collectives, progress); node-level GVT reduction not modelled separately; layouts with a rank without LPs excluded (finding F15).",
+   tech="Coq proof (rank-free abstract Time Warp machine + injectivity of remote ids) + multi-rank differential runs against the extracted sequential executor"),
+ "C04": dict(cat="proof", ref="DESIGN.md §5 C04",
+   text="Theorems (Properties_C04.v, axiom-free, n threads, every schedule): window invariant of the c_a/c_b protocol; a thread publishes only when all have joined, restarts only when nobody "
+        "has published, enters B only when nobody is in C/D; the executable replay step is sound and keeps the invariant; data invariant Phi preserved by extraction, insertion, end of event, "
+        "reset, rejoin, publish, end of pass; when all have published the minimum published value bounds every queued message and every event in progress. Tie: (a) the phase transitions traced "
+        "from gvt_thread_phase_run in cooperatively scheduled runs are replayed, in their exact order, through the extracted step function; (b) monitors on free-running and scheduled runs: values "
+        "per thread never decrease, the k-th value is the same for all threads, nobody extracts below a value it has been told, and the traced accumulator never exceeds a timestamp extracted since its reset.",
+   note=TB + "thread-level protocol only; node-level (MPI) reduction exercised by C02's runs; SC atomics.",
+   tech="Coq proof (inductive invariants of the counter protocol and of the data argument) + exact replay of traced phase transitions + trace monitors"),
+ "C06": dict(cat="proof", ref="DESIGN.md §5 C06",
+   text="Theorems (Properties_C06.v, axiom-free): flag-handshake transition system (sender cancel + deferred insertion; receiver extraction dispatching on the previous word, rollback with "
+        "conditional re-insertion; releases) — for every interleaving the word determines where the message is, only 0,1,2,3,5 are observed, no step is enabled on a released buffer (no double free, "
+        "no use after free), a release leaves the message nowhere, a never-cancelled message is released only as a committed entry; abstract exactly-once placement for all messages of all LPs "
+        "(C01 invariants); remote anti-messages match only their own message. Tie: every fetch-add result on every local message of cooperatively scheduled runs is replayed through the extracted "
+        "model and every release checked against it; free-running, LP-level (rollback storms) and 2..3-rank runs: release-twice oracle and final digests against the reference.",
+   note=TB + "SC atomics; hook-granularity atomicity; MPI modelled.",
+   tech="Coq proof (invariant of the flag handshake over all interleavings) + exact replay of traced fetch-add results + multi-rank differential runs"),
+ "C11": dict(cat="proof", ref="DESIGN.md §5 C11",
+   text="PARTIAL by nature. Theorems (Properties_C11.v, axiom-free): safety side conditions of the modelled operations — every shift of Random() defined for all 2^64 raw outputs (pre-fix code refuted "
+        "at 1), no handshake step on a released buffer, malloc results in bounds and aligned, a restore after fossil collection always finds a checkpoint, partition loops bounded. Everything outside "
+        "the models is decided by running every driver (numerical library on crafted states, allocator sequences, serial / parallel / multi-rank / LP-level / cooperatively scheduled simulations with "
+        "payloads > 32 bytes pending at shutdown, RootsimStop, statistics files) under ASan + UBSan.",
+   note=TB + "sanitizers observe the executions run, not all executions; no race detection; code outside the models (stdio, MPI, arch/*) only through those runs.",
+   tech="Coq proof of modelled side conditions + sanitizer (ASan/UBSan) runs of all correspondence drivers"),
 }
 
 PENDING_REASON = "check not built yet in this session (work in progress, see DESIGN.md §8 order of work); not claimed until its theorem and correspondence run"
